@@ -107,6 +107,28 @@ func (s *Source) place() {
 	s.Total, s.TotalOK = pos, ok
 }
 
+// OwnState returns a prover state holding only the producing path's own facts (without the identities introduced
+// for computed values, whose "no wrap-around" assumption must not be used to prove that a length fits).
+func (c *Checker) OwnState(s *Source) *pathint.State {
+	n := c.IP.Harness(s.St.Fn)
+	for _, ft := range s.St.Facts {
+		own := true
+		for _, sy := range ft.F.Syms() {
+			if strings.HasPrefix(sy, "val(") {
+				own = false
+			}
+		}
+		if own {
+			n.Facts = append(n.Facts, ft)
+		}
+	}
+	n.NE = append(n.NE, s.St.NE...)
+	for k, v := range s.St.Preds {
+		n.Preds[k] = v
+	}
+	return n
+}
+
 // Replace recomputes positions after the chunk list was edited.
 func (s *Source) Replace() { s.place() }
 
